@@ -8,6 +8,7 @@ import (
 	"berty.tech/go-ipfs-log/identityprovider"
 	"berty.tech/go-ipfs-log/iface"
 	"berty.tech/go-ipfs-log/io/cbor"
+	"berty.tech/go-ipfs-log/verifhook"
 	"github.com/ipfs/go-cid"
 	coreiface "github.com/ipfs/kubo/core/coreiface"
 	"golang.org/x/sync/semaphore"
@@ -113,6 +114,7 @@ func (f *Fetcher) processQueue(ctx context.Context, hashes []cid.Cid) []iface.IP
 
 		// get next hash
 		hash := queue.Next()
+		verifhook.Yield("fetch.dispatch", hash)
 		f.tasksCache[hash] = taskKindInProgress
 
 		// run process
@@ -127,6 +129,7 @@ func (f *Fetcher) processQueue(ctx context.Context, hashes []cid.Cid) []iface.IP
 			f.processDone()
 
 			f.muProcess.Lock()
+			verifhook.Yield("fetch.process", hash)
 
 			if entry != nil {
 				entryHash := entry.GetHash()
@@ -163,6 +166,7 @@ func (f *Fetcher) processQueue(ctx context.Context, hashes []cid.Cid) []iface.IP
 
 			// signal that a slot is available
 			f.condProcess.Signal()
+			verifhook.Yield("fetch.processed", hash)
 
 			f.muProcess.Unlock()
 		}(hash)
